@@ -20,6 +20,18 @@ class HarnessBug(Exception):
     pass
 
 
+def safe_str(e, limit=300):
+    """str(e) may itself raise (an exception class whose __str__ indexes missing args): never let that hurt the harness."""
+    try:
+        return str(e)[:limit]
+    except BaseException:
+        return "<unprintable %s>" % type(e).__name__
+
+
+def exc_mro(e):
+    return [c.__name__ for c in type(e).__mro__ if c not in (object, BaseException)]
+
+
 class NoSuchOutput(Exception):
     """A read of 'the n-th write output' when no write has succeeded yet: the op is skipped."""
 
@@ -485,7 +497,8 @@ def run_history(job):
         except Exception as e:  # natural raise (F3) -- ordinary error handling by the client
             rec["status"] = "raised"
             rec["exc"] = type(e).__name__
-            rec["msg"] = str(e)[:300]
+            rec["mro"] = exc_mro(e)
+            rec["msg"] = safe_str(e)
         if env.resolved_doc is not None:
             rec["resolved_doc"] = env.resolved_doc
         if hook is not None:
@@ -528,7 +541,8 @@ def detect_one(s, R=None):
     own = []
     for name in DOCUMENTED_ORDER:
         try:
-            own.append(1 if R[name]().detect(s) else 0)
+            v = R[name]().detect(s)
+            own.append(1 if (v is not NotImplemented and v) else 0)
         except BaseException as e:
             own.append("exc:" + type(e).__name__)
     return [df, own]
@@ -551,6 +565,24 @@ def run_pipeline_batch(job):
                 cs = mk_set(p["recipe"])
             else:
                 cs = R[p["reader"]]().read(doc_text(p["doc"]))
+            texts = []
+            for lang in cs.get_languages():
+                for c in cs.get_captions(lang):
+                    texts += [n.content for n in c.nodes if n.type_ == 1 and isinstance(n.content, str)]
+            marks = []
+            for probe in texts + ["\n".join(texts)]:
+                if not probe:
+                    continue
+                for name in DOCUMENTED_ORDER:
+                    if name in marks:
+                        continue
+                    try:
+                        v = R[name]().detect(probe)
+                        if v is not NotImplemented and v:
+                            marks.append(name)
+                    except BaseException:
+                        pass
+            rec["text_markers"] = marks
             call = dict(p.get("call") or {})
             for key, idx in (("force", "force_idx"), ("lang", "lang_idx")):
                 if idx in call:
@@ -559,7 +591,7 @@ def run_pipeline_batch(job):
             text = W[p["writer"]](**_ctor_kwargs(p["writer"], p.get("ctor"))).write(cs, **call)
             rec["text"] = text
         except Exception as e:
-            rec["setup_exc"] = type(e).__name__ + ": " + str(e)[:200]
+            rec["setup_exc"] = type(e).__name__ + ": " + safe_str(e, 200)
             out.append(rec)
             continue
         try:
@@ -574,7 +606,7 @@ def run_pipeline_batch(job):
                 back = r().read(text)
                 rec["reread"] = canon.summary(back)
             except BaseException as e:
-                rec["reread_exc"] = type(e).__name__ + ": " + str(e)[:200]
+                rec["reread_exc"] = type(e).__name__ + ": " + safe_str(e, 200)
         out.append(rec)
     return {"results": out}
 
